@@ -270,3 +270,37 @@ def test_c11_cores_clamp_never_reaches_zero(tmp_path, monkeypatch):
     monkeypatch.setattr(R, "realign_gaf", lambda gaf, graph, fasta, output, cores: seen.setdefault("cores", cores))
     R.run_realign(gaf="a", graph="g", fasta="f", output=str(tmp_path / "o.gaf"), cores=2)
     assert seen["cores"] == 1  # was 0 before 2701101: every batch of the file started at once at the end
+
+
+def test_c13_worker_dying_with_the_queue_lock_held_does_not_hang(tmp_path):
+    # the real command in a subprocess: worker 0 takes the result queue's write lock (as its feeder thread does while it
+    # writes a message) and dies; before 3a2e248 the second worker blocked for ever and the command never returned
+    import subprocess, sys, textwrap
+
+    (tmp_path / "g.gfa").write_text("S\ts1\tACGTACGTAC\tLN:i:10\tSN:Z:chr1\tSO:i:0\tSR:i:0\nS\ts2\tGGATTCCA\tLN:i:8\tSN:Z:chr1\tSO:i:10\tSR:i:0\nL\ts1\t+\ts2\t+\t0M\n")
+    (tmp_path / "r.fa").write_text(">r0\nACGTACGT\n>r1\nCGTACGTA\n")
+    (tmp_path / "a.gaf").write_text("".join(f"r{i}\t8\t0\t8\t+\t>s1>s2\t18\t{i}\t{i + 8}\t8\t8\t60\tcg:Z:8=\n" for i in range(2)))
+    code = textwrap.dedent(f"""
+        import os, sys, time
+        sys.path.insert(0, {os.environ.get('VERIF_REPO', '/repo')!r})
+        os.environ["GAFTOOLS_VERIF"] = "1"; os.environ["GAFTOOLS_VERIF_BATCH"] = "1"
+        import gaftools.cli.realign as R
+        real = R.wfa_alignment
+        def faulty(batch, qu):
+            if batch[0][3] == 0:
+                qu._wlock.acquire(); os._exit(3)
+            time.sleep(0.3); real(batch, qu)
+        R.wfa_alignment = faulty
+        R.run_realign(gaf={str(tmp_path / 'a.gaf')!r}, graph={str(tmp_path / 'g.gfa')!r}, fasta={str(tmp_path / 'r.fa')!r}, output={str(tmp_path / 'o.gaf')!r}, cores=2)
+    """)
+    p = subprocess.Popen([sys.executable, "-c", code], stdout=subprocess.DEVNULL, stderr=subprocess.DEVNULL, start_new_session=True)
+    try:
+        rc = p.wait(timeout=30)
+    except subprocess.TimeoutExpired:
+        rc = "hang"
+    finally:
+        try:
+            os.killpg(p.pid, 9)
+        except ProcessLookupError:
+            pass
+    assert rc not in (0, "hang"), rc
